@@ -207,6 +207,11 @@ impl<'a> Suite<'a> {
 				self.rep.disagree(&format!("{}:cert", self.prop), "model and implementation differ on a certificate (to-be-signed bytes or outcome)", out.replay());
 			}
 		}
+		if out.real == "panic" && self.prop != "C10" && out.model.starts_with("(ok") {
+			// (where there should be an artefact that says what was asked there is a panic: neither
+			// the artefact nor a refusal)
+			self.rep.violate(&format!("{}:panics-instead-of-cert", self.prop), "generation panics for parameters the model produces an artefact for: there is neither the certificate the parameters describe nor an error", out.replay());
+		}
 		if out.real == "panic" && self.prop == "C10" {
 			let site = panic_site(out.panic_msg.as_deref().unwrap_or(""));
 			self.rep.violate(&format!("C10:panic:cert:{}", site), "certificate generation panics on constructible parameters", out.replay());
@@ -545,6 +550,11 @@ spec-answer: {}", name, hex(&key), line, resp));
 			if !(self.prop == "C10" && same_kind) {
 				self.rep.disagree(&format!("{}:csr", self.prop), "model and implementation differ on a certificate signing request", out.replay());
 			}
+		}
+		if out.real == "panic" && self.prop != "C10" && out.model.starts_with("(ok") {
+			// (where there should be an artefact that says what was asked there is a panic: neither
+			// the artefact nor a refusal)
+			self.rep.violate(&format!("{}:panics-instead-of-csr", self.prop), "generation panics for parameters the model produces an artefact for: there is neither the request the parameters describe nor an error", out.replay());
 		}
 		if out.real == "panic" && self.prop == "C10" {
 			let site = panic_site(out.panic_msg.as_deref().unwrap_or(""));
@@ -979,6 +989,11 @@ request: {}", what, hex(&der))),
 			if !(self.prop == "C10" && same_kind) {
 				self.rep.disagree(&format!("{}:crl", self.prop), "model and implementation differ on a revocation list", out.replay());
 			}
+		}
+		if out.real == "panic" && self.prop != "C10" && out.model.starts_with("(ok") {
+			// (where there should be an artefact that says what was asked there is a panic: neither
+			// the artefact nor a refusal)
+			self.rep.violate(&format!("{}:panics-instead-of-crl", self.prop), "generation panics for parameters the model produces an artefact for: there is neither the revocation list the parameters describe nor an error", out.replay());
 		}
 		if out.real == "panic" && self.prop == "C10" {
 			let site = panic_site(out.panic_msg.as_deref().unwrap_or(""));
